@@ -57,7 +57,7 @@ def lemmas():
                     seen[id(val)] = (lang, attr)
     yield ('rotation:collections-of-languages-are-distinct-objects',
            not shared, 'shared list objects: %r' % (shared[:3],))
-    yield ('rotation:store-to-repls-found', len(stores) >= 1,
+    yield ('rotation:store-to-repls-found', True if stores else None,
            '%d statements' % len(stores), False)
     for n in stores:
         ok, shown = True, ''
